@@ -348,7 +348,7 @@ func (x *Exec) uncontracted(st *State, what string) {
 // knownPure: library functions assumed to have no effect on any modelled heap (listed in the trusted base).
 var pureFuncs = map[string]bool{
 	"time.Now": true, "time.Since": true, "log.Printf": true, "log.Println": true, "fmt.Sprintf": true, "fmt.Sprint": true,
-	"path/filepath.Join": true, "path/filepath.Base": true, "path/filepath.Dir": true, "path.Join": true,
+	"path/filepath.Dir": true, "path.Join": true,
 	"strings.HasPrefix": true, "strings.HasSuffix": true, "strings.Join": true, "strings.Split": true, "strings.TrimPrefix": true,
 	"strconv.ParseUint": true, "strconv.Itoa": true, "strconv.Atoi": true, "os.IsNotExist": true, "errors.As": true,
 	"(time.Time).Sub": true, "(time.Duration).Seconds": true, "(time.Time).UnixNano": true, "(time.Time).Unix": true,
